@@ -1055,6 +1055,8 @@ class Interp:
                 self.check_shift(y, fr)
                 if is_int_const(y):
                     return VInt(x * z3.IntVal(1 << y.as_long()))
+                # a left shift by a computed amount builds an integer of that many bits: an allocation (C08)
+                self.alloc_obligation(y, fr, node, 'x << n')
                 return VInt(x * self.pow2(y, fr))
             if isinstance(op, ast.RShift):
                 self.check_shift(y, fr)
